@@ -28,7 +28,7 @@ done
 say "failed again when re-run alone (3 tries):${still:- none}"
 # demonstration with the patch
 # a run counts as failed if run.sh exits non-zero OR reports failed runs / a sanitizer report in its output
-sig() { grep -Eq "failed=[1-9]|ERROR: AddressSanitizer|WARNING: ThreadSanitizer|FAILED [1-9]|FAIL:" "$1" && echo 1 || echo 0; }
+sig() { grep -Eq "failed=[1-9]|failed_runs=[1-9]|[1-9][0-9]* of [0-9]+ runs failed|(^|[^A-Za-z])FAIL([^A-Za-z]|$)|VIOLATION|ERROR: AddressSanitizer|WARNING: ThreadSanitizer|HANG|hung|DEADLOCK" "$1" && echo 1 || echo 0; }
 withrc=""; for i in 1 2; do (cd "$out" && timeout 1800 bash ./run.sh >"$log.demo_with.$i" 2>&1); rc=$?; [ $rc = 0 ] && [ "$(sig "$log.demo_with.$i")" = 1 ] && rc=1000; withrc="$withrc $rc"; cat "$log.demo_with.$i" >> "$log.demo_with"; rm -f "$log.demo_with.$i"; done
 say "demo WITH patch, 2 runs, exit codes (1000 = exit 0 but failures reported in output):$withrc"
 git checkout -- src
